@@ -5,35 +5,42 @@ import PqModel.PageLoad
 
 `Generated/Facts.lean` is rewritten from the source on every `./check` run; the theorems below are
 `decide`d against what the code says *now*. They tie the hand-written mirror (`PageLoad.lean`) to the
-source: which function loads a page body on which path, whether it compares checksums, and that the
-comparison is skipped for a zero CRC.
+source: through which function each path asks for a page body, which function fills the buffer,
+whether it compares checksums, and that the comparison is skipped for a zero CRC.
 
-After the repair of F4 (`FilePages.readDictionary` verifying, e.g. by loading through `readPage`):
-`allowUnverified_not_stale` and `mirror_matches_code` stop building — then (1) empty
-`allowUnverified`, (2) set `PageLoad.current := { dictLoaderVerifies := true }`, (3) delete
-`Props.C13.F4_dictionary_loader_accepts_anything` / `F4_witness` (the negation no longer holds) and
-the `dict-page-crc-unverified-*` known findings. `loaders_verify` then states that *every* loader
-verifies. A NEW loader that forgets the comparison makes `loaders_verify` fail in either state. -/
+State after `5000be7` (repair of F4): `FilePages.readDictionary` obtains the body from
+`FilePages.readPage`, which is the only function of file.go that fills a page buffer from the reader;
+the allow-list of unverified loaders is EMPTY. A loader that forgets the comparison (a new one, or
+`readDictionary` going back to a bare `io.ReadFull`) makes `loaders_verify` fail; a path of the mirror
+that no longer reaches its loader makes `mirror_matches_code` fail. -/
 namespace PqModel.Props.FactsCheckC13
 open PqModel.Generated.Facts PqModel.PageLoad
 
-/-- known unverified page loaders (finding F4). Must be empty after the repair. -/
-def allowUnverified : List String := ["FilePages.readDictionary"]
+/-- known unverified page loaders: none (F4 was the only entry; repaired by 5000be7) -/
+def allowUnverified : List String := []
 
 /-- every function of file.go that fills a page buffer from the reader compares the checksum before
-    it returns successfully — except the explicitly allowed known finding -/
+    it returns successfully — no exceptions; and there is such a function (not vacuous) -/
 theorem loaders_verify :
-    (pageLoaders.filter (fun l => !allowUnverified.contains l.1)).all (·.2) = true := by decide
+    (pageLoaders.filter (fun l => !allowUnverified.contains l.1)).all (·.2) = true ∧
+    pageLoaders.lookup "FilePages.readPage" = some true := by decide
 
 /-- the allow-list only names loaders that exist and really do not verify (no stale excuses) -/
 theorem allowUnverified_not_stale :
     allowUnverified.all (fun n => pageLoaders.lookup n == some false) = true := by decide
 
-/-- the mirror's path → loader table names extracted loaders, and its `verifies` agrees with the code -/
+/-- every path of the mirror asks for the page body in a function that calls the loader the mirror
+    names, that loader is an extracted page loader, and the mirror's `verifies` agrees with the code -/
 theorem mirror_matches_code :
-    Path.all.all (fun p => pageLoaders.lookup p.loader == some (verifies current p)) = true := by decide
+    Path.all.all (fun p => pageLoaderCalls.contains (p.entry, p.loader) &&
+      pageLoaders.lookup p.loader == some (verifies current p)) = true := by decide
 
-/-- `Path.all` really lists every path (so the theorem above is about all of them) -/
+/-- no function of file.go other than the entries of the mirror obtains a body from a page loader -/
+theorem loader_callers_known :
+    pageLoaderCalls.all (fun c => (Path.all.map fun p => (p.entry, p.loader)).contains c) = true := by
+  decide
+
+/-- `Path.all` really lists every path (so the theorems above are about all of them) -/
 theorem path_all_complete : ∀ p : Path, p ∈ Path.all := by intro p; cases p <;> decide
 
 /-- every verifying loader skips the comparison when the header CRC is zero — the `h.crc != 0` test of
